@@ -47,6 +47,12 @@ func checkRuntime(c *Ctx, prop string) {
 	if prop == "C09" || prop == "C04" {
 		rtNoWatch(c, c.scale(300, 10000))
 	}
+	if prop == "C04" || prop == "C05" {
+		rtReuse(c, c.scale(80, 2500))
+	}
+	if prop == "C06" || prop == "C05" {
+		rtZeroSize(c, c.scale(20, 400))
+	}
 	if prop == "C09" {
 		rtReEnable(c, c.scale(40, 1000))
 		// ez is the library's own user of DelayInitialVerification + CallGlobalCallbacksAfterVerificationEnabled: its
@@ -60,6 +66,11 @@ func checkRuntime(c *Ctx, prop string) {
 		// Blank) must keep its meaning: the C20 stream with a real wrapped Dials next to a native one
 		for i := c.scale(25, 400); i > 0; i-- {
 			c20Transforming(c, rng.Fork(), false)
+		}
+		if prop == "C07" {
+			// Blank.SetSource is a blocking report: nil means "stacked, and what View returns" - also the n-th time
+			// for the same source object
+			c20BlankSameSource(c, rng.Fork(), c.scale(30, 500))
 		}
 	}
 	t0 := time.Now()
